@@ -648,6 +648,11 @@ def gen_ir(rng, n_calls, family=None, rich=True, cfg=None):
                 # routed through a literal: pred -> lit (dependency) ; lit -> this call (arg or dependency)
                 lit = ir.add("lit", value=rng.choice(CONSTS), scope=new_scope())
                 ir.deps.append((pid, lit.id))
+                if rng.random() < 0.3:
+                    # two adjacent literals: pred -> lit1 -> lit2 -> this call (both are bypassed by pruning when dependency-only)
+                    lit2 = ir.add("lit", value=rng.choice(CONSTS), scope=new_scope())
+                    ir.deps.append((lit.id, lit2.id))
+                    lit = lit2
                 if rng.random() < 0.5:
                     args.append(ref(lit.id))
                 else:
